@@ -79,6 +79,7 @@ def _cases(tier, seed):
         for rows, _ in T.datasets_seeded(rng, 12000, max_groups=5, max_rows=14):
             add([rows], "raw", 2)
     out += T.integer_score_cases(rng, 100 if tier == "quick" else 1000, 2, len(T.CONFIGS))
+    out += T.ulp_score_cases(rng, 60 if tier == "quick" else 1000, 2, len(T.CONFIGS))
     return out
 
 
